@@ -238,3 +238,23 @@ func (ss *segmentStack) isEmpty() bool {
 	}
 	return true
 }
+
+// hasMergeOps returns true if any segment of the stack, or of its
+// child stacks, holds a merge operation.
+func (ss *segmentStack) hasMergeOps() bool {
+	if ss == nil {
+		return false
+	}
+	for _, seg := range ss.a {
+		a, ok := seg.(*segment)
+		if !ok || a.totOperationMerge > 0 {
+			return true // Unknown segment kinds are assumed to hold merges.
+		}
+	}
+	for _, childSegStack := range ss.childSegStacks {
+		if childSegStack.hasMergeOps() {
+			return true
+		}
+	}
+	return false
+}
